@@ -7,7 +7,7 @@
 
 use core::convert::TryFrom;
 use tinyvec::ArrayVec;
-use zeroize::{Zeroize, ZeroizeOnDrop};
+use zeroize::Zeroize;
 
 use crate::{
     constants::{LmsTreeIdentifier, MAX_ALLOWED_HSS_LEVELS, MAX_HASH_SIZE},
@@ -110,16 +110,6 @@ pub fn root_seed_and_id<H: HashChain>(
 // ---------------------------------------------------------------------------------------------
 // Secret lifecycle probes (property "secret-bearing values are wiped").
 // ---------------------------------------------------------------------------------------------
-
-/// Compile-time assertion that every secret-bearing type is `ZeroizeOnDrop`.
-pub fn assert_zeroize_on_drop<H: HashChain>() {
-    fn is_zod<T: ZeroizeOnDrop>() {}
-    is_zod::<Seed<H>>();
-    is_zod::<SeedAndLmsTreeIdentifier<H>>();
-    is_zod::<ReferenceImplPrivateKey<H>>();
-    is_zod::<LmsPrivateKey<H>>();
-    is_zod::<LmotsPrivateKey<H>>();
-}
 
 /// Names of the secret-bearing types the probes cover.
 pub const SECRET_TYPES: [&str; 5] = [
